@@ -312,6 +312,30 @@ def moduli(ctx, pair=("E", "nu"), full=False, allow_zero=False):
             ctx.prove("round trip: %s recovered from the stiffness" % k, ctx.eq(back[k], v[k]))
 
 
+def moduli_from_solid(ctx, pair=("E", "nu"), nu_sign="any"):
+    """the other direction of the round trip: an isotropic solid (E, nu) -> the two moduli of the given kinds (textbook
+    relations) -> moduliToC -> the stiffness of that same solid"""
+    pair = tuple(pair)
+    E = ctx.real("E", (1.0, 3.0)); nu = ctx.real("nu", (0.05, 0.45) if nu_sign != "negative" else (-0.6, -0.05))
+    ctx.assume(E > 0); ctx.assume(nu > -1); ctx.assume(2 * nu < 1)
+    if nu_sign == "nonnegative":
+        ctx.assume(nu >= 0)
+    elif nu_sign == "negative":
+        ctx.assume(nu < 0)
+    if pair == ("nu", "lam"):
+        ctx.assume(ctx.neg(ctx.eq(nu, 0.0, rtol=0.0)), "(nu, lam) = (0, 0) does not determine a solid")
+    G = E / (2 * (1 + nu))
+    v = {k: _textbook(k, E, nu, G) for k in pair}
+    del _SEEN[:]
+    c = moduliToC(**v)
+    ctx.observe("c", c)
+    den = (1 + nu) * (1 - 2 * nu)
+    ref = {"c11": E * (1 - nu) / den, "c12": E * nu / den, "c44": G}
+    ctx.prove("moduliToC(moduli of the solid) is the stiffness of the solid",
+              ctx.all([ctx.eq(c[0, 0], ref["c11"]), ctx.eq(c[0, 1], ref["c12"]), ctx.eq(c[3, 3], ref["c44"])]))
+
+
+
 # ------------------------------------------------------------------------------------------------ isotropic sphere
 
 def iso_sphere(ctx, via="constants", eig="scalar"):
@@ -445,11 +469,7 @@ def setter_order(ctx, target="matrix", shape="default"):
             objs[name] = se
         base = objs["m,R,p"]
         for name in list(seqs)[1:]:
-            # the stored tensors agree for every order; the description type is compared only between orders that differ in
-            # the position of the rotation (precipitate stiffness before any matrix stiffness resets a chosen shape: not a
-            # rotation/stiffness order question)
-            other = base if name == "m,p,R" else objs["R,p,m"]
-            _same_params(ctx, "order %s vs m,R,p" % name, base, objs[name], desc_of=(other, objs[name]))
+            _same_params(ctx, "order %s vs m,R,p" % name, base, objs[name])
         ref = _rot_ref(R, convert2To4rankTensor(elasticConstantToC(p11, p12, p44)))
         last = objs["m,p,R"]
         ctx.observe("p4", last.params.cPrec_4th)
@@ -897,6 +917,11 @@ HARNESSES = [
     Harness("C16.moduli_zero", moduli_zero, functions=[moduliToC], opts={"inv_hook": _capturing_inv, "ob_timeout": 30.0},
             assumptions=["as C16.moduli, with nu = 0 / lam = 0 admitted"], stubs=["np.linalg.inv(6x6): exact inverse of the block-diagonal compliance"],
             params={"quick": [{"pair": list(p)} for p in ZERO_PAIRS], "thorough": [{"pair": list(p)} for p in ZERO_PAIRS]}),
+    Harness("C16.moduli_from_solid", moduli_from_solid, functions=[moduliToC], opts={"inv_hook": _capturing_inv, "ob_timeout": 30.0},
+            assumptions=["solid: E > 0, -1 < nu < 1/2; for the pair (E, M) additionally nu >= 0 (two solids, one with nu < 0 and one with nu > 0, share every (E, M) with E < M; moduliToC returns the nu > 0 one: see PENDING C16.moduli_from_solid_EM)"],
+            stubs=["np.linalg.inv(6x6): exact inverse of the block-diagonal compliance"],
+            params={"quick": [{"pair": list(p), "nu_sign": "nonnegative" if p == ("E", "M") else "any"} for p in PAIRS],
+                    "thorough": [{"pair": list(p), "nu_sign": "nonnegative" if p == ("E", "M") else "any"} for p in PAIRS]}),
     Harness("C16.iso_sphere", iso_sphere, functions=_F_SE + [SphericalEnergyDescription._Khachaturyan, SphericalEnergyDescription.computeStrainEnergy, moduliToC, elasticConstantToC],
             opts={"inv_hook": _capturing_inv, "ob_timeout": 30.0},
             assumptions=["G > 0, -1 < nu < 1/2, R > 0; eigenstrain is dilatational (eps * identity)"],
@@ -932,8 +957,10 @@ HARNESSES = [
                               {"prec": "equal", "claims": ["homog4", "homog6", "compute"]},
                               {"prec": "other", "claims": ["compute", "volume", "rank_ell", "rank_bohm"]}, {"prec": "other", "claims": ["quadratic"]},
                               {"prec": "other", "claims": ["rank_bohm"], "fixed": True}],
-                    "thorough": [{"prec": "same"}, {"prec": "equal"}, {"prec": "other"}, {"prec": "same", "general": True},
-                                 {"prec": "other", "claims": ["rank_bohm", "rank_ell", "compute"], "fixed": True}]}),
+                    "thorough": [dict(ps, _opts={"ob_timeout": 150.0}) for pr in ("same", "equal", "other") for ps in (
+                                     {"prec": pr, "claims": ["textbook", "compute", "volume"]}, {"prec": pr, "claims": ["rank_ell", "rank_bohm"]},
+                                     {"prec": pr, "claims": ["quadratic"]}, {"prec": pr, "claims": ["homog4", "homog6"]}) if not (pr == "other" and "homog4" in ps["claims"])]
+                                + [{"prec": "same", "general": True}, {"prec": "other", "claims": ["rank_bohm", "rank_ell", "compute"], "fixed": True}]}),
     Harness("C16.energy_shear", energy_shear, functions=_F_SE + _F_ELL, opts={"ob_timeout": 40.0, "name_threshold": 10 ** 6, "inv_hook": _exact_inv, "fast_first": False},
             assumptions=["as C16.energy_form but with a symmetric eigenstrain with shear components (case shear), or with the cubic matrix rotated about z and an arbitrary D (case rot)"],
             stubs=["EllipsoidalEnergyDescription.Dijkl: returns the opaque D", "np.linalg.inv(6x6): exact inverse (block diagonal after simplification)"],
@@ -948,6 +975,19 @@ HARNESSES = [
             stubs=["EllipsoidalEnergyDescription.sphInt: exact value of the integral (textbook isotropic Green function moments)", "np.linalg.inv(6x6): exact inverse"],
             params={"quick": [{"via": "constants"}], "thorough": [{"via": "constants"}, {"via": "moduli"}]}),
 ]
+
+# harnesses that are violated on the unchanged tree wait here (not part of ./vcheck) until the code is repaired or the finding is listed;
+# run them with  VK_PENDING=1 ./vcheck C16 --only <id>
+PENDING = [
+    Harness("C16.moduli_from_solid_EM", lambda ctx, nu_sign="negative": moduli_from_solid(ctx, ("E", "M"), nu_sign), functions=[moduliToC],
+            opts={"inv_hook": _capturing_inv, "ob_timeout": 30.0},
+            assumptions=["solid with E > 0 and -1 < nu < 0; its (E, M) pair handed to moduliToC"],
+            doc="an auxetic solid (nu < 0) is not recovered from its (E, M) pair: moduliToC always takes the nu > 0 root of the quadratic",
+            params={"quick": [{"nu_sign": "negative"}], "thorough": [{"nu_sign": "negative"}]}),
+]
+import os as _os
+if _os.environ.get("VK_PENDING"):
+    HARNESSES = HARNESSES + PENDING
 
 from harness.c16_extra import EXTRA as _EXTRA
 HARNESSES = HARNESSES + _EXTRA
